@@ -194,7 +194,7 @@ func (g *litGen) typeStr(T types.Type) string { return types.TypeString(T, g.qua
 func (g *litGen) lit(t *Term, T types.Type) (string, error) {
 	g.depth++
 	defer func() { g.depth-- }()
-	if g.depth > 6 {
+	if g.depth > 10 {
 		return "", fmt.Errorf("value too deep")
 	}
 	switch u := T.Underlying().(type) {
@@ -257,12 +257,13 @@ func (g *litGen) lit(t *Term, T types.Type) (string, error) {
 		if err != nil {
 			return "", err
 		}
-		if _, ok := u.Elem().Underlying().(*types.Struct); !ok {
-			return "", fmt.Errorf("pointer to non-struct")
-		}
 		s, err := g.lit(val, u.Elem())
 		if err != nil {
 			return "", err
+		}
+		if _, ok := u.Elem().Underlying().(*types.Struct); !ok {
+			// pointer to a non-struct value: the address of the only element of a one-element slice
+			return "&[]" + g.typeStr(u.Elem()) + "{" + s + "}[0]", nil
 		}
 		return "&" + s, nil
 	case *types.Slice:
@@ -309,6 +310,26 @@ func (g *litGen) lit(t *Term, T types.Type) (string, error) {
 			es = append(es, s)
 		}
 		return g.typeStr(T) + "{" + strings.Join(es, ", ") + "}", nil
+	}
+	if sig, ok := T.Underlying().(*types.Signature); ok {
+		// a function value: nil if the model says so, otherwise a function that does nothing and returns zero values
+		if t.IsInt() && t.Int.Sign() == 0 {
+			return "(" + g.typeStr(T) + ")(nil)", nil
+		}
+		var ps, rs []string
+		for i := 0; i < sig.Params().Len(); i++ {
+			pt := g.typeStr(sig.Params().At(i).Type())
+			if sig.Variadic() && i == sig.Params().Len()-1 {
+				pt = "..." + strings.TrimPrefix(pt, "[]")
+			}
+			ps = append(ps, fmt.Sprintf("_ %s", pt))
+		}
+		body := ""
+		for i := 0; i < sig.Results().Len(); i++ {
+			rs = append(rs, fmt.Sprintf("r%d %s", i, g.typeStr(sig.Results().At(i).Type())))
+			body = " return "
+		}
+		return "func(" + strings.Join(ps, ", ") + ") (" + strings.Join(rs, ", ") + ") {" + body + "}", nil
 	}
 	return "", fmt.Errorf("values of type %s are not constructible from a model", T)
 }
@@ -390,7 +411,110 @@ func govcSan(s string) string {
 }
 `
 
+// tryReplay replays the solver's model; a model the real code does not confirm (the verifier's abstraction of a
+// library or of float arithmetic left it a freedom the code does not have) is excluded and the next one tried.
 func tryReplay(P *Program, v *Verifier, ob *Obligation) *ReplayResult {
+	files := ob.Result.SatFiles
+	if len(files) == 0 {
+		files = []string{ob.Result.SMTFile}
+	}
+	if len(files) > 6 {
+		files = files[:6]
+	}
+	var best *ReplayResult
+	saved := ob.Result.SMTFile
+	defer func() { ob.Result.SMTFile = saved }()
+	for _, f := range files {
+		ob.Result.SMTFile = f
+		rr := tryReplayFile(P, v, ob)
+		if rr != nil && rr.Confirmed {
+			return rr
+		}
+		if best == nil {
+			best = rr
+		}
+	}
+	return best
+}
+
+func tryReplayFile(P *Program, v *Verifier, ob *Obligation) *ReplayResult {
+	var rr *ReplayResult
+	// first among small inputs (integers in -1..4, slices of at most 3 elements), then among all
+	for _, small := range []bool{true, false} {
+		extra := ""
+		if small {
+			extra = smallInputAsserts(ob)
+			if extra == "" {
+				continue
+			}
+		}
+		for attempt := 0; attempt < 5; attempt++ {
+			var block string
+			rr, block = tryReplayOnce(P, v, ob, extra)
+			if rr.Confirmed {
+				return rr
+			}
+			if block == "" || !strings.HasPrefix(rr.Note, "model-spurious") {
+				break
+			}
+			extra += block + "\n"
+			rr.Note += fmt.Sprintf(" (after %d excluded models)", attempt+1)
+		}
+		if rr != nil && !strings.Contains(rr.Note, "did not reproduce") && !strings.HasPrefix(rr.Note, "model-spurious") && !strings.Contains(rr.Note, "not constructible") {
+			break
+		}
+	}
+	return rr
+}
+
+// smallInputAsserts bounds the integer leaves of the parameters (and the lengths of their slices) to small values.
+func smallInputAsserts(ob *Obligation) string {
+	fn := ob.Fn
+	if fn == nil {
+		return ""
+	}
+	key := funcKey(fn)
+	var out []string
+	var walk func(expr string, so *Sort, depth int)
+	walk = func(expr string, so *Sort, depth int) {
+		if depth > 4 || len(out) > 60 {
+			return
+		}
+		switch {
+		case so == SInt:
+			out = append(out, fmt.Sprintf("(assert (and (<= (- 1) %s) (<= %s 4)))", expr, expr))
+		case so == SSlice:
+			out = append(out, fmt.Sprintf("(assert (<= (Slice_len %s) 3))", expr))
+		case so.Kind == KDT && so != SIface:
+			for _, f := range so.Fields {
+				walk("("+f.Name+" "+expr+")", f.Sort, depth+1)
+			}
+		}
+	}
+	for _, p := range fn.Params {
+		if _, isPtr := p.Type().Underlying().(*types.Pointer); isPtr {
+			continue // references are not data
+		}
+		n := smtName(fmt.Sprintf("p$%s@%s", p.Name(), sanitize(key)))
+		walk(n, sortOf(p.Type()), 0)
+	}
+	return strings.Join(out, "\n") + "\n"
+}
+
+func tryReplayOnce(P *Program, v *Verifier, ob *Obligation, extra string) (*ReplayResult, string) {
+	rr0, blk := tryReplayOnce1(P, v, ob, extra)
+	return rr0, blk
+}
+
+var lastBlock string
+
+func tryReplayOnce1(P *Program, v *Verifier, ob *Obligation, extra string) (*ReplayResult, string) {
+	lastBlock = ""
+	rr := tryReplayBody(P, v, ob, extra)
+	return rr, lastBlock
+}
+
+func tryReplayBody(P *Program, v *Verifier, ob *Obligation, extra string) *ReplayResult {
 	fn := ob.Fn
 	rr := &ReplayResult{Inputs: map[string]string{}}
 	if fn == nil || fn.Pkg == nil || ob.Result == nil || ob.Result.SMTFile == "" {
@@ -414,6 +538,9 @@ func tryReplay(P *Program, v *Verifier, ob *Obligation) *ReplayResult {
 		return rr
 	}
 	text := string(smt)
+	if extra != "" {
+		text = strings.Replace(text, "(check-sat)", extra+"(check-sat)", 1)
+	}
 	var names []string
 	pterm := map[string]*ssa.Parameter{}
 	for _, p := range fn.Params {
@@ -459,6 +586,17 @@ func tryReplay(P *Program, v *Verifier, ob *Obligation) *ReplayResult {
 		if err != nil {
 			rr.Note = err.Error()
 			return rr
+		}
+		{
+			var eqs []string
+			for _, n := range names {
+				if x := got[smtName(n)]; x != nil {
+					eqs = append(eqs, "(= "+smtName(n)+" "+x.String()+")")
+				}
+			}
+			if len(eqs) > 0 {
+				lastBlock = "(assert (not (and " + strings.Join(eqs, " ") + ")))"
+			}
 		}
 		for _, n := range names {
 			p := pterm[n]
